@@ -107,8 +107,122 @@ def sites(repo):
     return out
 
 
+def _find_func(tree, cls, name):
+    for n in ast.walk(tree):
+        if isinstance(n, ast.ClassDef) and n.name == cls:
+            for f in n.body:
+                if isinstance(f, ast.FunctionDef) and f.name == name:
+                    return f
+    return None
+
+
+def _call_src(st):
+    if isinstance(st, ast.Expr) and isinstance(st.value, ast.Call):
+        return _src(st.value.func)
+    return None
+
+
+def _events(stmts, guarded, out, tree):
+    """Ordered walk of a teardown block: the statements that matter to a waiter, in source order."""
+    for st in stmts:
+        cs = _call_src(st)
+        if isinstance(st, ast.Assign) and any(_src(t) == "self.active" for t in st.targets) and \
+                isinstance(st.value, ast.Constant) and st.value.value is False:
+            out.append(("set_inactive", guarded))
+        elif isinstance(st, ast.For):
+            body_calls = [_call_src(b) for b in st.body]
+            if any(c and c.endswith("._unlink") for c in body_calls):
+                out.append(("unlink_channels", guarded))
+            elif "channel_events" in _src(st.iter) and any(c and c.endswith(".set") for c in body_calls):
+                out.append(("channel_events_set", guarded))
+            else:
+                out.append(("other", guarded))
+        elif isinstance(st, ast.If):
+            t = _src(st.test)
+            g = guarded or t == "self.active"
+            if t == "not self.active" and any(isinstance(b, ast.Return) for b in st.body):
+                continue  # close(): nothing to do on a dead transport
+            _events(st.body, g, out, tree)
+            _events(st.orelse, guarded, out, tree)
+        elif isinstance(st, ast.Try):
+            _events(st.body, guarded, out, tree)
+            _events(st.finalbody, guarded, out, tree)
+        elif isinstance(st, ast.While):
+            if any(isinstance(n, ast.Call) and _src(n.func) == "self.join" for n in ast.walk(st)):
+                out.append(("join_thread", guarded))
+            else:
+                out.append(("other", guarded))
+        elif cs == "self.packetizer.close":
+            out.append(("packetizer_close", guarded))
+        elif cs == "self.completion_event.set":
+            out.append(("completion_set", guarded))
+        elif cs == "self.auth_handler.abort":
+            out.append(("auth_abort", guarded))
+        elif cs == "self.server_accept_cv.notify_all":
+            out.append(("accept_notify_all", guarded))
+        elif cs == "self.server_accept_cv.notify":
+            out.append(("accept_notify_one", guarded))
+        elif cs == "self.sock.close":
+            out.append(("sock_close", guarded))
+        elif cs in ("self.lock.acquire", "self.lock.release"):
+            continue
+        elif cs == "self.stop_thread":
+            f = _find_func(tree, "Transport", "stop_thread")
+            if f is not None:
+                _events(f.body, guarded, out, tree)
+            out.append(("run_tail", guarded))  # from here on the transport thread leaves its loop and runs its tail
+        elif isinstance(st, ast.Expr) and isinstance(st.value, ast.Constant):
+            continue  # docstring
+        else:
+            out.append(("other", guarded))
+
+
+def teardown(repo):
+    """The two shutdown paths in source order: the tail of Transport.run() (after the except ladder) and
+    Transport.close() with stop_thread() inlined; plus whether Channel._event_pending clears the request event
+    only while the channel is open, under the channel lock."""
+    tree = ast.parse(open(os.path.join(repo, "paramiko", "transport.py")).read())
+    run = _find_func(tree, "Transport", "run")
+    tail = []
+    if run is not None:
+        ladder = None
+        for n in ast.walk(run):
+            if isinstance(n, ast.Try) and len(n.handlers) >= 3:
+                if ladder is None or n.lineno > ladder.lineno:
+                    ladder = n
+        outer = None
+        if ladder is not None:
+            for n in ast.walk(run):
+                if isinstance(n, ast.Try) and ladder in n.body:
+                    outer = n
+        if outer is not None:
+            i = outer.body.index(ladder)
+            _events(outer.body[i + 1:], False, tail, tree)
+    close = _find_func(tree, "Transport", "close")
+    cl = []
+    if close is not None:
+        _events(close.body, False, cl, tree)
+    ctree = ast.parse(open(os.path.join(repo, "paramiko", "channel.py")).read())
+    ep = _find_func(ctree, "Channel", "_event_pending")
+    guarded = False
+    if ep is not None:
+        clears = [n for n in ast.walk(ep) if isinstance(n, ast.Call) and _src(n.func) == "self.event.clear"]
+        ok = bool(clears)
+        for c in clears:
+            # inside `if not self.closed:` inside a try whose finally releases self.lock, acquired just before
+            inside_if = any(isinstance(i, ast.If) and _src(i.test) == "not self.closed" and
+                            any(c is x for b in i.body for x in ast.walk(b)) for i in ast.walk(ep))
+            under_lock = any(isinstance(t, ast.Try) and any(_is_call(s, "release", "self.lock") for s in t.finalbody)
+                             and any(c is x for b in t.body for x in ast.walk(b)) for t in ast.walk(ep)) and \
+                any(_is_call(s, "acquire", "self.lock") for s in ast.walk(ep) if isinstance(s, ast.Expr))
+            ok = ok and inside_if and under_lock
+        guarded = ok
+    return {"run_tail": tail, "close_seq": [e for e, _ in cl], "event_clear_guarded": guarded}
+
+
 def lean_table(repo):
     ss = sites(repo)
+    td = teardown(repo)
     lines = ["/- GENERATED by pv/lib_lockdisc.py from paramiko/*.py — do not edit. -/",
              "namespace PV.Generated.C13", "",
              "structure LockSite where", "  file : String", "  func : String", "  lock : String", "  safe : Bool",
@@ -117,5 +231,13 @@ def lean_table(repo):
              "def lockSites : List LockSite := ["]
     lines.append(",\n".join('  { file := "%s", func := "%s", lock := "%s", safe := %s }' %
                             (s["file"], s["func"], s["lock"], "true" if s["safe"] else "false") for s in ss))
-    lines += ["]", "", "end PV.Generated.C13", ""]
+    lines += ["]", "",
+              "/-- tail of `Transport.run()` after the except ladder, in source order: (event, inside `if self.active:`) -/",
+              "def runTail : List (String × Bool) := [" +
+              ", ".join('("%s", %s)' % (e, "true" if g else "false") for e, g in td["run_tail"]) + "]", "",
+              "/-- `Transport.close()` with `stop_thread()` inlined, in source order -/",
+              "def closeSeq : List String := [" + ", ".join('"%s"' % e for e in td["close_seq"]) + "]", "",
+              "/-- `Channel._event_pending` clears the request event only while the channel is open, under the channel lock -/",
+              "def eventClearGuarded : Bool := %s" % ("true" if td["event_clear_guarded"] else "false"), "",
+              "end PV.Generated.C13", ""]
     return "\n".join(lines), ss
